@@ -10,10 +10,21 @@ from .core import st, recs
 
 
 def _members_stream(rng):
-    from menelaus.concept_drift import DDM, EDDM, STEPD
+    from menelaus.concept_drift import DDM, EDDM, STEPD, ADWINAccuracy, LinearFourRates
     from menelaus.change_detection import ADWIN, PageHinkley, CUSUM
-    from menelaus.data_drift import KdqTreeStreaming
+    from menelaus.data_drift import KdqTreeStreaming, PCACD
+    from menelaus.ensemble import StreamingEnsemble, SimpleMajorityElection, MinimumApprovalElection
+
+    def nested():
+        # an ensemble is a detector: as a member it must run exactly as a lone ensemble of the same members would
+        return StreamingEnsemble({"d": DDM(n_threshold=3, warning_scale=0.5, drift_scale=1.5), "p": PageHinkley(delta=0.01, threshold=2.0, burn_in=4),
+                                  "s": STEPD(window_size=4, alpha_warning=0.4, alpha_drift=0.1)},
+                                 MinimumApprovalElection(approvals_needed=1), {"p": lambda X: (X.iloc[:, [0]] if hasattr(X, "iloc") else X[:, [0]])})
     pool = [
+        ("lfr", lambda: LinearFourRates(time_decay_factor=0.75, warning_level=0.2, detect_level=0.05, burn_in=5, num_mc=60, subsample=1, round_val=2), None),
+        ("adwacc", lambda: ADWINAccuracy(delta=0.3, new_sample_thresh=2, window_size_thresh=4, subwindow_size_thresh=2), None),
+        ("pcacd", lambda: PCACD(window_size=14, ev_threshold=0.9, delta=0.05, divergence_metric="intersection", sample_period=0.1), None),
+        ("nest", nested, None),
         ("ddm", lambda: DDM(n_threshold=rng_choice(rng, [3, 8]), warning_scale=rng_choice(rng, [0.5, 1.0]), drift_scale=rng_choice(rng, [1.5, 2.5])), None),
         ("eddm", lambda: EDDM(n_threshold=3, warning_thresh=0.99, drift_thresh=0.8), None),
         ("stepd", lambda: STEPD(window_size=4, alpha_warning=0.45, alpha_drift=rng_choice(rng, [0.1, 0.02])), None),
@@ -32,7 +43,14 @@ def rng_choice(rng, xs):
 
 def _members_batch(rng):
     from menelaus.data_drift import HDDDM, CDBD, KdqTreeBatch, NNDVI
+    from menelaus.ensemble import BatchEnsemble, SimpleMajorityElection
+
+    def nested():
+        return BatchEnsemble({"h": HDDDM(detect_batch=3, statistic="stdev", significance=0.5, subsets=3),
+                              "k": KdqTreeBatch(bootstrap_samples=20, count_ubound=8, alpha=0.2)},
+                             SimpleMajorityElection(), {"k": lambda X: (X.iloc[:, [0, 1]] if hasattr(X, "iloc") else X[:, [0, 1]])})
     pool = [
+        ("nest", nested, None),
         ("hdddm", lambda: HDDDM(detect_batch=rng_choice(rng, [1, 2, 3]), statistic="stdev", significance=0.5, subsets=3), None),
         ("hdddm2", lambda: HDDDM(detect_batch=2, statistic="tstat", significance=0.2, subsets=3), [0, 1]),
         ("cdbd", lambda: CDBD(detect_batch=3, statistic="stdev", significance=0.5, subsets=3), [0]),
@@ -63,8 +81,19 @@ def mproj(d):
         since = d.batches_since_reset
     else:
         since = d.samples_since_reset
-    r = recs(list(d.retraining_recs)) if hasattr(d, "retraining_recs") else [-2, -2]
+    r = _recs(getattr(d, "retraining_recs", None))
     return {"state": st(d.drift_state), "total": int(total), "since": int(since), "recs": r}
+
+
+def _recs(r):
+    """[start, end] of a member; a nested ensemble reports a dict of its own members' values: first member's pair"""
+    if r is None:
+        return [-2, -2]
+    if isinstance(r, dict):
+        for v in r.values():
+            return _recs(v)
+        return [-2, -2]
+    return recs(list(r))
 
 
 def selector(cols, frame):
@@ -85,7 +114,7 @@ def event(op, ens, keys, twins, election_kind):
         since = ens.samples_since_reset
     e = {"op": op, "m": [mproj(ens.detectors[k]) for k in keys], "t": [mproj(twins[k]) for k in keys],
          "vstates": [st(views[k]) for k in keys],
-         "vrecs": [recs(list(vrecs[k])) if k in vrecs else [-2, -2] for k in keys],
+         "vrecs": [_recs(vrecs[k]) if k in vrecs else [-2, -2] for k in keys],
          "state": st(ens.drift_state), "total": int(total), "since": int(since), "ecnt": [0] * len(keys)}
     if election_kind == "confirmed" and ens.election.wait_period_counters is not None:
         e["ecnt"] = [int(x) for x in ens.election.wait_period_counters]
